@@ -15,6 +15,7 @@ import (
 	"go/ast"
 	"go/parser"
 	"go/token"
+	"go/types"
 	"path/filepath"
 	"sort"
 	"strings"
@@ -102,6 +103,39 @@ func genSrvRobust(repo string) (string, error) {
 		}
 		return true
 	})
+	// (2d) channelInstance.verifyAndDecrypt: is the chunk length compared with the signature length
+	// before `b[len(b)-RemoteSignatureLength():]` is evaluated?
+	vd, err := srvrobFindFunc(fset, filepath.Join(repo, "uasc"), "verifyAndDecrypt")
+	if err != nil {
+		return "", err
+	}
+	// the method of channelInstance is the one that slices; SecureChannel.verifyAndDecrypt only dispatches
+	if vd.Recv == nil || !strings.Contains(types.ExprString(vd.Recv.List[0].Type), "channelInstance") {
+		files, _ := srvsecGoFiles(filepath.Join(repo, "uasc"))
+		for _, fn := range files {
+			f, err := parser.ParseFile(fset, fn, nil, 0)
+			if err != nil {
+				return "", err
+			}
+			for _, d := range f.Decls {
+				if fd, ok := d.(*ast.FuncDecl); ok && fd.Name.Name == "verifyAndDecrypt" && fd.Recv != nil && strings.Contains(types.ExprString(fd.Recv.List[0].Type), "channelInstance") {
+					vd = fd
+				}
+			}
+		}
+	}
+	lengthChecked := false
+	ast.Inspect(vd.Body, func(n ast.Node) bool {
+		if ifs, ok := n.(*ast.IfStmt); ok {
+			if b, ok := ifs.Cond.(*ast.BinaryExpr); ok && b.Op == token.LSS {
+				txt := types.ExprString(b)
+				if strings.Contains(txt, "len(") && strings.Contains(txt, "RemoteSignatureLength") {
+					lengthChecked = true
+				}
+			}
+		}
+		return true
+	})
 	// (3) recover() anywhere in package server / uasc (non-test, non-hook files)
 	var recoverers []string
 	for _, pkg := range []string{"server", "uasc"} {
@@ -152,6 +186,8 @@ func genSrvRobust(repo string) (string, error) {
 	fmt.Fprintf(&sb, "def responseWriteDeadline : Bool := %v\n\n", deadline)
 	sb.WriteString("/-- `suitableRefType` contains a `for` loop around `slices.Delete` (the loop whose index is never recomputed) -/\n")
 	fmt.Fprintf(&sb, "def refTypeDeleteLoop : Bool := %v\n\n", deleteLoop)
+	sb.WriteString("/-- `channelInstance.verifyAndDecrypt` compares the chunk length with the signature length before slicing -/\n")
+	fmt.Fprintf(&sb, "def signedChunkLengthChecked : Bool := %v\n\n", lengthChecked)
 	sb.WriteString("/-- functions of packages server and uasc that call `recover()` -/\n")
 	fmt.Fprintf(&sb, "def recoverers : List String := %s\n\n", srvsecLeanList(recoverers))
 	sb.WriteString("/-- (reference type id, `getSubRefs(srv, id)` as numeric ids, in order) for every ReferenceType node of ns 0 -/\n")
